@@ -1,8 +1,11 @@
 """C13 — bounded run-time driver: quadtree enumeration and tile counts.
 
-Everything here is serial and in-process toasty code (no toasty multiprocessing); the exhaustive
-depth-2 sweep is fanned out over fresh interpreters with ``rt.common.call_isolated`` purely for
-speed (each chunk has its own watchdog).
+Most of it is serial and in-process toasty code; the exhaustive depth-2 sweep is fanned out over
+fresh interpreters with ``rt.common.call_isolated`` purely for speed (each chunk has its own
+watchdog).  "The reported numbers ... equal the numbers of tiles actually visited by ... walks"
+is also checked for walks with worker processes (2 and 3 workers): those run in fresh
+interpreters through ``rt.c01_batch.dispatch`` (per-walk SIGALRM watchdog inside a
+``call_isolated`` watchdog); the callback appends the position to a per-process O_APPEND log.
 
 OBLIGATIONS (name — witness keys)
   rt/pos_children/relation        — pos, observed, expected
@@ -19,6 +22,14 @@ OBLIGATIONS (name — witness keys)
   rt/visit_leaves/tile_of_pos     — shape keys + pos, tile_pos
   rt/walk/op_set                  — shape keys + missing, extra, duplicated
   rt/walk/children_first          — shape keys + parent, child
+  rt/walk_parallel/op_set         — shape keys + parallel, missing, extra, duplicated
+                                    (callbacks of walk(parallel=w) vs the live non-leaf tiles of the statement)
+  rt/walk_parallel/equals_serial  — shape keys + parallel, only_serial, only_parallel
+                                    (multiset of callbacks of the same shape walked with 1 and with w workers)
+  rt/walk_parallel/returns        — shape keys + parallel, watchdog_s
+  rt/walk_parallel/raises         — shape keys + parallel, exception
+  rt/counts/operations            — with key ``parallel``: count_operations() vs the number of callbacks
+                                    of walk(parallel=w)   (keys as below + parallel)
   rt/counts/leaf | live | operations — shape keys + reported, visited, oracle, (repeat)
   rt/counts/sum_identity          — shape keys + leaf, live, operations
   rt/counts/closed_form           — shape keys + which, reported, closed_form
@@ -35,15 +46,23 @@ BOUNDS
             deep pairs; generate_pos depth 0..6; shapes: every accept-set x every apex at depth
             <= 1, corner shapes depth 1..4, 2500 seeded depth-2 accept-sets in isolated chunks,
             random shapes depth <= 5.
+            walks with 2 / 3 workers: at depth 2 all 3^4 assignments of {rejected, accepted without
+            any child, accepted with all children} to the level-1 tiles; the filtered corner shapes
+            of depth 2..4 (gap tile at every level incl. one level above the leaves, dead tile beside
+            live siblings, three dead siblings, chains, ...) with both worker counts; 40 seeded
+            arbitrary (non-hereditary) accept-sets of depth 2..4 with random apexes.
   thorough: algebra n <= 8, pairs n <= 4; generate_pos depth 0..8; ALL 2^20 accept-sets at depth 2
             (no apex) + all 17^4 "canonical" accept-sets x every apex level; many more random
-            shapes to depth 6.
+            shapes to depth 6.  Parallel walks: the 3^4 family with both worker counts, corner shapes
+            to depth 5, 300 seeded canonical depth-2 accept-sets, 400 random shapes to depth 5.
 
 TRUSTED: the oracle in rt/c13_quadtree.py (shift arithmetic on tuples); that the user filter is a
-pure function of the tile position; Python ints.
+pure function of the tile position; Python ints; O_APPEND writes of one short line are atomic
+(parallel walks: one log file per process anyway).
 """
 import contextlib
 import io
+import os
 import time
 from concurrent.futures import ThreadPoolExecutor
 
@@ -484,6 +503,166 @@ def chunk_depth2(masks=None, lo=None, hi=None, canonical=False, apex_mode="none"
 
 
 # ---------------------------------------------------------------------------------------------
+# walks with worker processes (isolated side: par_walk_case; driver side: eval_par_walk)
+
+PAR_WORKERS = (2, 3)
+PAR_WATCHDOG = 40
+
+
+def par_walk_case(case):
+    """One shape: the three counters, a serial walk and a walk with ``case['parallel']`` worker
+    processes (fresh pyramid instance each).  JSON-able result."""
+    logdir = os.path.join(case["_dir"], "log_%s" % case["id"])
+    os.makedirs(logdir, exist_ok=True)
+    kind, depth, acc, apex, cs = Q.shape_from_witness(case)
+    out = {"counts": {}, "serial": None, "parallel": None, "exception": None, "exception_serial": None}
+    pyr = Q.make_pyramid(kind, depth, acc, apex, cs)
+    for name in ("count_leaf_tiles", "count_live_tiles", "count_operations"):
+        try:
+            with _quiet():
+                out["counts"][name] = getattr(pyr, name)()
+        except Exception as e:
+            out["counts"][name] = repr(e)
+    ser = []
+    try:
+        with _quiet():
+            Q.make_pyramid(kind, depth, acc, apex, cs).walk(lambda pos: ser.append([pos.n, pos.x, pos.y]), parallel=1)
+        out["serial"] = ser
+    except Exception as e:
+        out["exception_serial"] = repr(e)
+    fds = {}
+
+    def cb(pos, *_rest):
+        pid = os.getpid()
+        fd = fds.get(pid)
+        if fd is None:
+            fd = os.open(os.path.join(logdir, "%d.log" % pid), os.O_WRONLY | os.O_CREAT | os.O_APPEND, 0o644)
+            fds.clear()
+            fds[pid] = fd
+        os.write(fd, ("%d %d %d\n" % (pos.n, pos.x, pos.y)).encode())
+
+    t0 = time.monotonic()
+    try:
+        with _quiet():
+            Q.make_pyramid(kind, depth, acc, apex, cs).walk(cb, parallel=case["parallel"])
+    except Exception as e:
+        out["exception"] = repr(e)
+    out["secs"] = round(time.monotonic() - t0, 3)
+    got = []
+    for name in sorted(os.listdir(logdir)):
+        with open(os.path.join(logdir, name)) as f:
+            for line in f:
+                parts = line.split()
+                if len(parts) == 3:
+                    got.append([int(v) for v in parts])
+    out["parallel"] = got
+    out["processes"] = len(os.listdir(logdir))
+    return out
+
+
+def _counted(seq):
+    d = {}
+    for p in seq:
+        p = tuple(p)
+        d[p] = d.get(p, 0) + 1
+    return d
+
+
+def eval_par_walk(case, outcome, sink):
+    kind, depth, acc, apex, cs = Q.shape_from_witness(case)
+    W = Q.shape_witness(kind, depth, acc, apex, cs, parallel=case["parallel"])
+    if outcome["status"] == "timeout":
+        w = dict(W)
+        w.update(watchdog_s=PAR_WATCHDOG)
+        sink.add("rt/walk_parallel/returns", w, "walk(parallel=%d) had not returned after %s s" % (case["parallel"], outcome.get("secs")))
+        return
+    if outcome["status"] != "done":
+        return
+    res = outcome["result"]
+    if res["exception"]:
+        w = dict(W)
+        w.update(exception=res["exception"])
+        sink.add("rt/walk_parallel/raises", w, "walk(parallel=%d) raised %s although the callback cannot raise" % (case["parallel"], res["exception"]))
+        return
+    exp = Q.Expect(kind, depth, acc, apex)
+    got = [tuple(p) for p in res["parallel"]]
+    _multiset(sink, "rt/walk_parallel/op_set", W, got, exp.ops, "walk(parallel=%d)" % case["parallel"])
+    c = res["counts"].get("count_operations")
+    if c != len(got) or c != len(exp.ops):
+        w = dict(W)
+        w.update(reported=c, visited=len(got), oracle=len(exp.ops), repeat=0)
+        sink.add("rt/counts/operations", w, "count_operations() = %r; walk(parallel=%d) made %d callbacks; statement gives %d" % (
+            c, case["parallel"], len(got), len(exp.ops)))
+    if res["serial"] is not None:
+        a, b = _counted(res["serial"]), _counted(got)
+        if a != b:
+            only_s = sorted(p for p in a if a[p] > b.get(p, 0))
+            only_p = sorted(p for p in b if b[p] > a.get(p, 0))
+            w = dict(W)
+            w.update(only_serial=[list(p) for p in only_s[:8]], only_parallel=[list(p) for p in only_p[:8]])
+            sink.add("rt/walk_parallel/equals_serial", w, "walk(parallel=1) made %d callbacks, walk(parallel=%d) %d; only serial %s, only parallel %s" % (
+                len(res["serial"]), case["parallel"], len(got), only_s[:4], only_p[:4]))
+
+
+def three_state_shapes():
+    """Depth 2: each level-1 tile is rejected (0), accepted without any child (1, a tile one level
+    above the leaves that the filter accepts but none of whose children) or accepted with all its
+    children (2): 3^4 accept-sets."""
+    out = []
+    for code in range(81):
+        acc = []
+        c = code
+        for q in range(4):
+            st = c % 3
+            c //= 3
+            qp = (1, q % 2, q // 2)
+            if st:
+                acc.append(qp)
+            if st == 2:
+                acc.extend(Q.children(qp))
+        out.append(sorted(acc))
+    return out
+
+
+def build_par_cases(rng, thorough):
+    cases = []
+
+    def add(kind, depth, acc, apex, par, cs="astronomical"):
+        c = Q.shape_witness(kind, depth, acc, apex, cs)
+        c["parallel"] = par
+        c["id"] = len(cases)
+        cases.append(c)
+
+    for i, acc in enumerate(three_state_shapes()):
+        for par in (PAR_WORKERS if thorough else (PAR_WORKERS[i % 2],)):
+            add("f", 2, acc, None, par)
+    dmax = 5 if thorough else 4
+    for depth in range(2, dmax + 1):
+        for kind, d, acc, apex in Q.corner_shapes(depth):
+            if kind != "f":
+                continue
+            for par in PAR_WORKERS:
+                add(kind, d, acc, apex, par)
+    n_canon, n_rand = (300, 400) if thorough else (0, 40)
+    for i in range(n_canon):
+        m = canonical_mask(rng.randrange(17 ** 4))
+        add("f", 2, mask_to_accept(m), _APEX2[i % len(_APEX2)] if i % 3 == 0 else None, PAR_WORKERS[i % 2])
+    for i in range(n_rand):
+        depth = rng.choice([2, 3, 3, 4] if not thorough else [2, 3, 3, 4, 4, 5])
+        acc = Q.random_accept(rng, depth)
+        add("f", depth, acc, Q.random_apex(rng, depth, acc, "f"), PAR_WORKERS[i % 2], rng.choice(["astronomical", "planetary"]))
+    bound = ("walks with worker processes (%s workers, per-walk watchdog %d s): depth 2: all 3^4 assignments of {rejected, accepted "
+             "without any child, accepted with all children} to the level-1 tiles (%s); filtered corner shapes of depth 2..%d "
+             "(tile accepted but none of its children at each level incl. one level above the leaves, dead tile beside live "
+             "siblings, three dead siblings, missing quadrant / leaf, chains, empty / full, apex variants) with both worker "
+             "counts; %d seeded canonical depth-2 accept-sets; %d seeded arbitrary accept-sets of depth 2..%d with random "
+             "apexes; each compared with the oracle, count_operations and the serial walk of the same shape"
+             % ("/".join(str(w) for w in PAR_WORKERS), PAR_WATCHDOG, "both worker counts" if thorough else "alternating worker counts",
+                dmax, n_canon, n_rand, 5 if thorough else 4))
+    return cases, bound
+
+
+# ---------------------------------------------------------------------------------------------
 
 def _flush(ctx, sink, reported):
     for obl, w, msg in sink.items:
@@ -548,6 +727,14 @@ def run(ctx):
 
     pool = ThreadPoolExecutor(max_workers=14)
     futs = [pool.submit(run_chunk, j) for j in jobs]
+
+    # 3b. walks with worker processes, in the background as well (they mostly sleep in queue time-outs)
+    from rt import c01_batch as B
+    par_cases, par_bound = build_par_cases(rng, thorough)
+    ctx.bound(par_bound)
+    par_pool = ThreadPoolExecutor(max_workers=1)
+    par_fut = par_pool.submit(B.dispatch, "rt.c13", "par_walk_case", [dict(c) for c in par_cases], os.path.join(ctx.workdir, "par"),
+                              PAR_WATCHDOG, 12, 16, CAP, 2.0)
 
     # 4. in-process: exhaustive depth <= 1, corner shapes, random shapes
     def fam(kind, depth, accept, apexes, coordsys="astronomical"):
@@ -614,6 +801,26 @@ def run(ctx):
         ctx.note("depth-2 sweep: %d of %d chunks did not finish inside the time budget on this machine and are NOT covered: %s" % (
             len(unfinished), len(jobs), unfinished[:6]))
     _flush(ctx, sink, reported)
+    # 6. collect the walks with worker processes
+    par_results = par_fut.result()
+    par_pool.shutdown()
+    skipped = 0
+    nproc = 0
+    for c in par_cases:
+        o = par_results.get(c["id"], {"status": "skipped"})
+        if o["status"] == "skipped":
+            skipped += 1
+            continue
+        kind, depth, acc, apex, cs = Q.shape_from_witness(c)
+        nops = len(Q.Expect(kind, depth, acc, apex).ops)
+        ctx.case(("parwalk", c["parallel"]) + Q.shape_key(kind, depth, acc, apex, cs), nontrivial=nops > 0)
+        eval_par_walk(c, o, sink)
+        if o["status"] == "done":
+            nproc = max(nproc, o["result"].get("processes", 0))
+    ctx.monitor("parallel_walk_worker_processes_seen_in_one_walk", nproc)
+    if skipped:
+        ctx.note("%d parallel walks not run: %d walks had already hit the watchdog" % (skipped, CAP))
+    _flush(ctx, sink, reported)
     ctx.assume("tile filters used by the driver are pure functions of the tile position")
     ctx.assume("independent oracle rt/c13_quadtree.py: ancestry by integer shifts on (n,x,y) tuples")
     for obl, n in sorted(sink.counts.items()):
@@ -640,6 +847,21 @@ def replay(obligation, witness):
             sink.add(obligation, w, "closed form differs at depth %d" % d)
     elif obligation == "rt/generate_pos/enumeration":
         check_generate_pos(w["depth"], sink)
+    elif w.get("parallel"):
+        import shutil
+        import tempfile
+        from rt import c01_batch as B
+        kind, depth, acc, apex, cs = Q.shape_from_witness(w)
+        work = tempfile.mkdtemp(prefix="c13_replay_")
+        try:
+            for attempt in range(2):
+                case = Q.shape_witness(kind, depth, acc, apex, cs, parallel=int(w["parallel"]), id=attempt)
+                res = B.dispatch("rt.c13", "par_walk_case", [case], os.path.join(work, "r%d" % attempt), PAR_WATCHDOG, batch_size=1, max_workers=1)
+                eval_par_walk(case, res[attempt], sink)
+                if sink.items:
+                    break
+        finally:
+            shutil.rmtree(work, ignore_errors=True)
     else:
         kind, depth, acc, apex, cs = Q.shape_from_witness(w)
         check_family(kind, depth, acc, [apex] if apex else [], cs, sink)
